@@ -32,10 +32,11 @@ type intScript struct {
 var intROM = machine.BlankROM(0)
 
 type intRig struct {
-	m     *machine.Machine
-	bus   [][]int
-	cycle int
-	on    bool
+	m      *machine.Machine
+	bus    [][]int
+	cycle  int
+	on     bool
+	broken bool // the CPU panicked: build a new rig
 }
 
 func newIntRig() *intRig {
@@ -140,24 +141,32 @@ func (r *intRig) run(s *intScript) *trace.Scenario {
 		r.bus = nil
 		n := 0
 		r.on = true
-		for {
-			r.cycle = n + 1
-			m.CPU.ExecuteMachineCycle()
-			n++
-			t++
-			if m.CPU.VerifAtBoundary() || n >= 12 {
-				break
+		perr := machine.Try(func() {
+			for {
+				r.cycle = n + 1
+				m.CPU.ExecuteMachineCycle()
+				n++
+				t++
+				if m.CPU.VerifAtBoundary() || n >= 12 {
+					break
+				}
+				for _, b := range raisesAt(t) {
+					raiseBit(m, b)
+					raises = append(raises, []int{n, b})
+				}
+				if keyAt(t) {
+					doKey()
+					keys = append(keys, n)
+				}
 			}
-			for _, b := range raisesAt(t) {
-				raiseBit(m, b)
-				raises = append(raises, []int{n, b})
-			}
-			if keyAt(t) {
-				doKey()
-				keys = append(keys, n)
-			}
-		}
+		})
 		r.on = false
+		if perr != "" {
+			// the emulator panicked: a unit of 99 cycles, which no action of the specification accepts
+			sc.Ev = append(sc.Ev, []any{pre, ob, [][]int{}, pre, 99, int(m.I.ReadIE()), int(m.I.ReadIF() & 0x1f), raises, keys, 1, "panic: " + perr})
+			r.broken = true
+			return sc
+		}
 		bus := r.bus
 		if bus == nil {
 			bus = [][]int{}
@@ -220,6 +229,9 @@ func intGen(c *Ctx) {
 		s.ID = fmt.Sprintf("int-%s-%d", fam, n)
 		n++
 		w.Put(rig.run(s))
+		if rig.broken {
+			rig = newIntRig()
+		}
 	}
 	if c.Want("boundary") {
 		// all IME x IE x IF at a boundary (exhaustive)
